@@ -35,6 +35,18 @@ TierGo(accN, priceN, den, n) ==
         IN IF Len(acc2) + Len(price2) + Len(den2) >= 0 THEN TierGo(acc2, price2, den2, n - TierInc) ELSE RZero
 RefScriptFeeExact(size, base) == TierGo(Zero, base.n, base.d, size)
 
+\* What the definition allows for an arbitrary size (BigNat) without unfolding thousands of tiers:
+\*  - a zero price makes every tier free;
+\*  - 1.2^4 > 2, so the fee is at least (n/d) * 25600 * 1.2^(k-1) >= (n/d) * 2^(14 + (k-1) div 4): when that already
+\*    reaches 2^64 the floor cannot fit (sound lower bound; d < 2^64 makes it decide every k >= 457);
+\*  - otherwise the exact rational by the tier recursion.
+SurelyOverflows(k, base) == k >= 1 /\ Geq(Mul(base.n, Pow2(14 + ((k-1) \div 4))), Mul(P64, base.d))
+RefExpect(sizeN, base) ==
+  IF base.n = Zero THEN [k |-> "val", x |-> RZero]
+  ELSE LET kq == DivModSmall(sizeN, TierInc)[1] IN
+       IF Lt(FromSmall(4000), kq) \/ SurelyOverflows(ToSmall(kq), base) THEN [k |-> "overflow"]
+       ELSE [k |-> "val", x |-> RefScriptFeeExact(ToSmall(sizeN), base)]
+
 \* ---- L1: the closed form the library evaluates (geometric progression sum)
 \*   tier_price * (1 - m^k)/(1 - m) + base * m^k * partial,   m = 6/5
 RECURSIVE PowS(_,_,_)
